@@ -310,7 +310,7 @@ func runBInner(s *BScript) (nontrivial bool, f *vt.Finding) {
 
 func TestBatcher(t *testing.T) {
 	cB.ReplayRepeat = 200
-	vt.Run(t, cB, vt.N(300, 5000), genB, runB)
+	vt.Run(t, cB, vt.N(300, 20000), genB, runB)
 }
 
 func keys(m map[int64]bool) []int64 {
